@@ -18,8 +18,8 @@ import zlib
 VERIF = os.path.dirname(os.path.dirname(os.path.abspath(__file__)))
 REPO_SRC = os.environ.get("VP_REPO_SRC", "/repo/src")
 DEPS = os.path.join(VERIF, ".deps")
-OUT = os.path.join(VERIF, "out")
-EVIDENCE = os.path.join(VERIF, "evidence")
+OUT = os.environ.get("VP_OUT_DIR", os.path.join(VERIF, "out"))
+EVIDENCE = os.environ.get("VP_EVIDENCE_DIR", os.path.join(VERIF, "evidence"))  # (mutation runs only)
 KNOWN_FILE = os.path.join(VERIF, "known_findings.json")
 REGRESS = os.path.join(VERIF, "regress")
 WHEELS = "/opt/veriftools/wheels"
